@@ -45,6 +45,15 @@ def same(c, g, m):
 def oracle(c, obs):
     if obs.startswith("panic") or obs.startswith("nil-base") or obs.startswith("DRIVER-DIED") or obs == "NO-OUTPUT":
         return "constructor %s does not return a usable object: %s" % (c["line"], obs[:60])
+    if c["kind"] == "char":
+        f = dict(t.split("=", 1) for t in obs.split(" ") if "=" in t)
+        if f.get("default", "").startswith("num:") and "pr" in f.get("perms", ""):
+            d = float(f["default"][4:])
+            for b, cmp in (("min", lambda x: d < x), ("max", lambda x: d > x)):
+                if f.get(b, "-") != "-" and cmp(float(f[b][:-1])):
+                    return "the default value %r of %s lies outside its declared %s %s" % (d, c["line"], b, f[b])
+        if not f.get("type") or not f.get("format") or not f.get("perms"):
+            return "constructor %s yields an object without type / format / permissions: %s" % (c["line"], obs[:80])
     if c["kind"] == "svc":
         m = re.match(r"type=(\S*) chars=(\S*)$", obs)
         if not m or not m.group(1):
